@@ -165,6 +165,12 @@ KIND_ATTR = {"opaque": "#[diplomat::opaque]", "out": "#[diplomat::out]"}
 KIND_DECL = {"opaque": "pub struct %s;", "struct": "pub struct %s { pub a: u8 }", "enum": "pub enum %s { A, B }", "out": "pub struct %s { pub a: u8 }"}
 
 
+# a second method whose signature mentions the type that carries (or inherits) the attribute: as receiver, or as return type for
+# out structs - the positions where a backend prints a *reference* to the type
+TYPE_USER = {"opaque": "        pub fn zq7_v_%(i)04d(&self) -> u8 { 0 }", "struct": "        pub fn zq7_v_%(i)04d(self) -> u8 { 0 }",
+             "enum": "        pub fn zq7_v_%(i)04d(self) -> u8 { 0 }", "out": "        pub fn zq7_v_%(i)04d() -> Zq7T%(i)04d { unimplemented!() }"}
+
+
 def _letters(h):
     return chr(65 + h // 26) + chr(97 + h % 26)
 
@@ -226,6 +232,8 @@ def emit(placement, payload, idxs, cond, rotate=False):
             if placement == "type+method":
                 al(i, "i", "        ")
             out.append(method_text(("zq7_u_%04d" if placement == "type" else "zq7_m_%04d") % i, i, kind == "opaque", rotate))
+            if placement == "type":
+                out.append(TYPE_USER[kind] % {"i": i})
             out.append("    }")
         out.append("}")
     elif placement in ("module", "mod+method", "mod+type"):
@@ -243,6 +251,8 @@ def emit(placement, payload, idxs, cond, rotate=False):
             if placement == "mod+method":
                 al(i, "i", "        ")
             out.append(method_text(("zq7_m_%04d" if placement == "mod+method" else "zq7_u_%04d") % i, i, kind == "opaque", rotate))
+            if placement in ("module", "mod+type"):
+                out.append(TYPE_USER[kind] % {"i": i} if placement == "mod+type" else TYPE_USER[kind].replace("Zq7T", "Zq7G") % {"i": i})
             out.append("    }\n}")
     else:
         raise MachineryError("unknown placement %s" % placement)
@@ -316,7 +326,12 @@ def expected_tokens(placement, payload, to, ti, backend, idx=0):
         if backend in RENAME_BACKENDS:
             exp["r"] = ti
             exp["q"] = to and not ti  # a later (inner) rename overrides the inherited one (hir/attrs.rs "override extend mode")
+        elif backend == "c":
+            # the C backend renders no rename at all: the new names appear nowhere, whatever the conditions say
+            exp["r"] = False
+            exp["q"] = False
         else:
+            # (kotlin renders method renames, demo_gen type renames: only the false direction is judged there)
             if not ti:
                 exp["r"] = False
             if not to:
@@ -324,7 +339,7 @@ def expected_tokens(placement, payload, to, ti, backend, idx=0):
     else:
         if backend in RENAME_BACKENDS:
             exp["r"] = ti
-        elif not ti:
+        elif backend == "c" or not ti:
             exp["r"] = False
     return exp
 
